@@ -193,7 +193,7 @@ func c03(r *ev.Run, pairMode bool) {
 		afterWarmups(r, "hotp-validate-after-other-operations", cs, func(c c03Case) (string, string) { return hotpValidate(c, k, nil, pairMode) })
 	}
 	volume(r, "hotp-validate-volume", 1100, func(k int) c03Case {
-		key := []byte(fmt.Sprintf("volume-key-%04d", k/2))
+		key := []byte(fmt.Sprintf("volume-key-%04d-0123456789abcdefghij", k/2))[:10+(k/2*7)%27]
 		return c03Case{ref.B32Encode(key), ref.HOTP(key, uint64(k)+uint64(k%5), 6, k%3), uint64(k), uint64(k % 4), 6, k % 3, false}
 	}, func(c c03Case) (string, string) {
 		_, key := ref.B32Classify(c.Secret)
